@@ -171,6 +171,25 @@ pub fn check_tie_custom_on(searcher: &Searcher, n: usize, keys: &[u8]) -> Option
     if let Err(e) = check_windows(&all, &get, (ti.n + 1).min(5), (ti.n + 1).min(5)) {
         return Some(("custom_key_window".into(), e));
     }
+    // the same windows when TopDocs is not the top-level collector: inside a tuple, a MultiCollector, a FilterCollector
+    let get_tuple = |k: usize, o: usize| searcher.search(&AllQuery, &(mk(k, o), tantivy::collector::Count)).unwrap().0;
+    if let Err(e) = check_windows(&all, &get_tuple, (ti.n + 1).min(4), (ti.n + 1).min(4)) {
+        return Some(("custom_key_window_in_tuple_collector".into(), e));
+    }
+    let get_multi = |k: usize, o: usize| {
+        let mut mc = tantivy::collector::MultiCollector::new();
+        let h = mc.add_collector(mk(k, o));
+        let _c = mc.add_collector(tantivy::collector::Count);
+        let mut fruits = searcher.search(&AllQuery, &mc).unwrap();
+        h.extract(&mut fruits)
+    };
+    if let Err(e) = check_windows(&all, &get_multi, (ti.n + 1).min(4), (ti.n + 1).min(4)) {
+        return Some(("custom_key_window_in_multi_collector".into(), e));
+    }
+    let get_filter = |k: usize, o: usize| searcher.search(&AllQuery, &tantivy::collector::FilterCollector::new("id".to_string(), |_v: u64| true, mk(k, o))).unwrap();
+    if let Err(e) = check_windows(&all, &get_filter, (ti.n + 1).min(3), (ti.n + 1).min(3)) {
+        return Some(("custom_key_window_in_filter_collector".into(), e));
+    }
     None
 }
 
@@ -414,6 +433,9 @@ pub fn build_prune_index(c: &PruneCorpus) -> Index {
     let mut sb = Schema::builder();
     let _id = sb.add_u64_field("id", INDEXED | FAST | STORED);
     let body = sb.add_text_field("body", TEXT);
+    // a second text field whose lengths and frequencies differ from body's, and a field without frequencies
+    let title = sb.add_text_field("title", TEXT);
+    let tag = sb.add_text_field("tag", STRING);
     let index = Index::create_in_ram(sb.build());
     let id = index.schema().get_field("id").unwrap();
     let mut w: IndexWriter = index.writer_with_num_threads(1, 50_000_000).unwrap();
@@ -422,6 +444,8 @@ pub fn build_prune_index(c: &PruneCorpus) -> Index {
         let mut d = TantivyDocument::default();
         d.add_u64(id, i as u64);
         d.add_text(body, prune_doc_text(c, i));
+        d.add_text(title, prune_doc_text(c, (i * 7 + 3) % c.n));
+        d.add_text(tag, ["u", "v", "w"][i % 3]);
         w.add_document(d).unwrap();
         if c.layout == 1 && i + 1 == c.n / 2 {
             w.commit().unwrap();
@@ -514,13 +538,36 @@ fn ulps(a: f32, b: f32) -> u32 {
 
 /// Compare TopDocs(K) by score with the exhaustive list.
 pub fn check_prune(index: &Index, q: &Q, clauses: usize, ks: &[usize], threads: usize) -> Option<(String, String)> {
+    let fields = crate::qmodel::Fields { schema: index.schema(), id: index.schema().get_field("id").unwrap(), body: index.schema().get_field("body").unwrap() };
+    let tquery: Box<dyn Query> = lower(q, &fields);
+    check_prune_query(index, tquery, clauses, ks, threads)
+}
+
+/// queries mixing fields: a second text field with other lengths, and a field indexed without frequencies
+pub fn cross_field_queries(index: &Index) -> Vec<(&'static str, Box<dyn Query>, usize)> {
+    use tantivy::query::{BooleanQuery, Occur, TermQuery};
+    let s = index.schema();
+    let (body, title, tag) = (s.get_field("body").unwrap(), s.get_field("title").unwrap(), s.get_field("tag").unwrap());
+    let t = |f: Field, x: &str, o: IndexRecordOption| Box::new(TermQuery::new(tantivy::Term::from_field_text(f, x), o)) as Box<dyn Query>;
+    let wf = IndexRecordOption::WithFreqs;
+    let b = |v: Vec<(Occur, Box<dyn Query>)>| Box::new(BooleanQuery::new(v)) as Box<dyn Query>;
+    vec![
+        ("union_body_tag", b(vec![(Occur::Should, t(body, "a", wf)), (Occur::Should, t(tag, "u", IndexRecordOption::Basic))]), 2),
+        ("union_tag_body_body", b(vec![(Occur::Should, t(tag, "v", IndexRecordOption::Basic)), (Occur::Should, t(body, "a", wf)), (Occur::Should, t(body, "d", wf))]), 3),
+        ("union_title_body", b(vec![(Occur::Should, t(title, "a", wf)), (Occur::Should, t(body, "b", wf))]), 2),
+        ("inter_title_body", b(vec![(Occur::Must, t(title, "a", wf)), (Occur::Must, t(body, "d", wf))]), 2),
+        ("inter_body_title", b(vec![(Occur::Must, t(body, "a", wf)), (Occur::Must, t(title, "d", wf))]), 2),
+        ("inter_body_title_tag", b(vec![(Occur::Must, t(body, "a", wf)), (Occur::Must, t(title, "b", wf)), (Occur::Must, t(tag, "u", IndexRecordOption::Basic))]), 3),
+        ("reqopt_title_body", b(vec![(Occur::Must, t(title, "c", wf)), (Occur::Should, t(body, "a", wf))]), 2),
+    ]
+}
+
+pub fn check_prune_query(index: &Index, tquery: Box<dyn Query>, clauses: usize, ks: &[usize], threads: usize) -> Option<(String, String)> {
     let mut index = index.clone();
     if threads > 1 {
         index.set_multithread_executor(threads).unwrap();
     }
     let searcher = index.reader().unwrap().searcher();
-    let fields = crate::qmodel::Fields { schema: index.schema(), id: index.schema().get_field("id").unwrap(), body: index.schema().get_field("body").unwrap() };
-    let tquery: Box<dyn Query> = lower(q, &fields);
     let mut all = searcher.search(&tquery, &AllScores).unwrap();
     all.sort_by(|x, y| y.0.partial_cmp(&x.0).unwrap().then(addr_key(&x.1).cmp(&addr_key(&y.1))));
     let exact = clauses == 1;
@@ -601,7 +648,7 @@ fn prune_corpora(thorough: bool) -> Vec<PruneCorpus> {
 }
 
 /// the recorded finding: block-max metadata is computed under segment-local statistics
-fn classify_prune(rule: &str, c: &PruneCorpus) -> String {
+pub fn classify_prune(rule: &str, c: &PruneCorpus) -> String {
     if (rule == "topk_not_the_best_exact" || rule == "topk_not_the_best") && c.layout == 2 {
         return format!("{rule}_avgdl_shift");
     }
@@ -646,6 +693,12 @@ pub fn replay(case: &Value) -> Vec<Violation> {
                 let c: AlphaCorpus = serde_json::from_value(case["corpus"].clone()).unwrap();
                 let index = build_alpha_index(&c);
                 check_prune(&index, &tq("a"), 1, &[1, 2, 3], 1).map(|(r, w)| (if c.extra_len > 0 { format!("{r}_avgdl_shift") } else { r }, w))
+            }
+            "prune_cross" => {
+                let c: PruneCorpus = serde_json::from_value(case["corpus"].clone()).unwrap();
+                let index = build_prune_index(&c);
+                let (_, q, clauses) = cross_field_queries(&index).remove(case["query_index"].as_u64().unwrap_or(0) as usize);
+                check_prune_query(&index, q, clauses, &[1, 2, 3, 10, 500], case["threads"].as_u64().unwrap_or(1) as usize).map(|(r, w)| (classify_prune(&r, &c), w))
             }
             "prune" => {
                 let c: PruneCorpus = serde_json::from_value(case["corpus"].clone()).unwrap();
@@ -884,13 +937,30 @@ pub fn run(ctx: &Ctx) -> Report {
                     ));
                 }
             }
+            for (qi, (name, _, clauses)) in cross_field_queries(&index).iter().enumerate() {
+                for threads in [1usize, 3] {
+                    if threads == 3 && c.layout == 0 {
+                        continue;
+                    }
+                    st.eval();
+                    st.count("prune_cross_field_cases");
+                    let tq2 = cross_field_queries(&index).remove(qi).1;
+                    let r = catch_unwind(AssertUnwindSafe(|| check_prune_query(&index, tq2, *clauses, &[1, 2, 3, 10, 500], threads)));
+                    let v = match r {
+                        Ok(None) => continue,
+                        Ok(Some((rule, what))) => (classify_prune(&rule, c), what),
+                        Err(e) => ("topk_panic".to_string(), format!("{} [{}]", panic_message(e), last_panic())),
+                    };
+                    st.violation(Violation::new(&v.0, format!("corpus {c:?} cross-field query {name} threads {threads}: {}", v.1), json!({"kind":"prune_cross","corpus":c,"query_index":qi,"clauses":clauses,"threads":threads,"name":name})));
+                }
+            }
             if i % 13 == 0 {
                 st.sample(json!({"kind":"prune","corpus":c,"queries":pq.iter().map(|x| x.0).collect::<Vec<_>>()}));
             }
         }
     });
     rep.set("exhaustive", done == work.len());
-    rep.set("rule", "tie family with deletes: every shape of exactly 3 segments (<= 3 docs each; thorough 4) x every set of <= 2 (thorough 3) deleted documents leaving each segment alive x 3 key patterns x {1, 3} search threads, custom keys: every window equals the slice of the ranking by (key desc, address asc) of the alive documents. Non-positive scores: every shape of <= 3 segments x 6 queries whose scores are zero, negative or mixed (const 0, boost 0, boost -1, const -2.5, demotion clause, promotion clause): every limit x offset window of order_by_score equals the slice of the exhaustive ranking. tie family: every segment shape (<= 3 segments x <= 3 docs; thorough 4 x 5) x every key assignment over {0,1} (and {0,1,2}) through tweak_score, single and multi-threaded; score ties and u64 / i64 / f64 / date / string fast-field keys with missing values, ascending and descending; every limit 1..5 x offset 0..5 window must equal the slice of the complete list ordered (key, ascending address). pruning family: 450-document corpora with periodic (tf, length) patterns, a hot document at each block-boundary position, tf 300, 1-2 segments and an avgdl-shifting segment x 12 queries (term, unions and intersections of 2-4 terms, required-optional, generic, msm, boosted) x K in {1,2,3,10,500}: TopDocs by score vs the exhaustive ranking from a non-pruning collector (exact for one clause, 4 ulp per clause otherwise). Non-trivial: assignment with a tie / every pruning case; distinct by case descriptor");
+    rep.set("rule", "tie family with deletes: every shape of exactly 3 segments (<= 3 docs each; thorough 4) x every set of <= 2 (thorough 3) deleted documents leaving each segment alive x 3 key patterns x {1, 3} search threads, custom keys: every window equals the slice of the ranking by (key desc, address asc) of the alive documents. Non-positive scores: every shape of <= 3 segments x 6 queries whose scores are zero, negative or mixed (const 0, boost 0, boost -1, const -2.5, demotion clause, promotion clause): every limit x offset window of order_by_score equals the slice of the exhaustive ranking. tie family: every segment shape (<= 3 segments x <= 3 docs; thorough 4 x 5) x every key assignment over {0,1} (and {0,1,2}) through tweak_score, single and multi-threaded; score ties and u64 / i64 / f64 / date / string fast-field keys with missing values, ascending and descending; every limit 1..5 x offset 0..5 window must equal the slice of the complete list ordered (key, ascending address), also when TopDocs sits inside a tuple collector, a MultiCollector or a FilterCollector. pruning family: 450-document corpora with periodic (tf, length) patterns, a hot document at each block-boundary position, tf 300, 1-2 segments and an avgdl-shifting segment x 12 queries (term, unions and intersections of 2-4 terms, required-optional, generic, msm, boosted) and 7 cross-field queries (a second text field with other lengths, a field indexed without frequencies; unions, intersections in both clause orders, required-optional) x K in {1,2,3,10,500}: TopDocs by score vs the exhaustive ranking from a non-pruning collector (exact for one clause, 4 ulp per clause otherwise). Non-trivial: assignment with a tie / every pruning case; distinct by case descriptor");
     for k in ["tie_custom_cases", "tie_fast_cases", "prune_cases"] {
         if st.counters.get(k).copied().unwrap_or(0) == 0 {
             rep.machinery_errors.push(format!("vacuous: {k} = 0"));
